@@ -150,6 +150,8 @@ def known_match(pid, finding, trace, sc, known):
             continue
         if "class" in m and (sc or {}).get("class") != m["class"]:
             continue
+        if "min_manager" in m and j < m["min_manager"]:
+            continue
         return k
     return None
 
@@ -249,6 +251,16 @@ def trace_check(pid, tier, seed, scs, mc_stats=None, extra_cov=None, t0=None, ex
     returns exit code"""
     t0 = t0 or time.time()
     known = load_known()
+    # every open known finding of this property is re-run from its committed replay file, so the
+    # KNOWN-FINDING line is printed exactly as long as the defect is still there
+    scs = list(scs)
+    for k in known:
+        if k.get("status") == "open" and k["property"] == pid and k.get("replay") and os.path.exists(k["replay"]):
+            ksc = sc_from_json(json.load(open(k["replay"]))["scenario"])
+            ksc["id"] = "known/" + k["id"]
+            if "class" in k["match"]:
+                ksc["class"] = k["match"]["class"]
+            scs.append(ksc)
     traces, results, st = run_traces(pid, scs)
     viol, knownhits, foreign = [], {}, {}
     nchk = unch = 0
